@@ -95,13 +95,18 @@ def build(nodes, prefix=()):
     for loc, val in nodes:
         full = prefix + loc
         cur = root
+        inside_selected_ancestor = False
         for p in full[:-1]:
             nxt = cur.get(p)
-            if nxt is None or nxt[0] == "leaf":
+            if nxt is not None and nxt[0] == "leaf":
+                inside_selected_ancestor = True  # already contained in a wholly selected ancestor
+                break
+            if nxt is None:
                 nxt = ("node", {})
                 cur[p] = nxt
             cur = nxt[1]
-        cur[full[-1]] = ("leaf", val)
+        if not inside_selected_ancestor:
+            cur[full[-1]] = ("leaf", val)
 
     def conv(children):
         if not children:
@@ -117,10 +122,15 @@ def build(nodes, prefix=()):
     return conv(root)
 
 
+MAXIMAL = []  # side output of model(): per projection, the maximal object-path nodes (see below)
+
+
 def model(doc, mq, exprs, style):
     """-> (list of projections, skip_structure flag) or None when out of scope."""
     out = []
     overlap = False
+    maximal = MAXIMAL
+    del maximal[:]
     for mloc, mval in rpath.nodelist(mq, doc):
         if not isinstance(mval, (list, dict)):
             continue
@@ -138,6 +148,15 @@ def model(doc, mq, exprs, style):
             out.append([v for _, v in nodes])
         else:
             out.append(build(nodes, prefix))
+        # selected nodes that are not inside another selected node and are reached through object members only:
+        # whatever the overlap, the projection must hold exactly their value at their location
+        locs = [loc for loc, _ in nodes]
+        mx = []
+        for loc, val in nodes:
+            full = prefix + loc
+            if all(isinstance(t, str) for t in full) and not any(len(o) < len(loc) and loc[:len(o)] == o for o in locs):
+                mx.append((full, val))
+        maximal.append(mx)
     return out, overlap
 
 
@@ -206,6 +225,7 @@ def _check(doc, mi, el, style, acc, record=True):
             acc.count("skipped.out-of-scope")
         return
     exp, overlap = m
+    maximal = [list(x) for x in MAXIMAL]
     snapshot = deep_copy(doc)
     work = deep_copy(doc)
     bad = None
@@ -222,6 +242,24 @@ def _check(doc, mi, el, style, acc, record=True):
             for g, x in zip(got, exp):
                 if not jeq(g, x):
                     bad = ("projection", exp, got)
+                    break
+        else:
+            # overlapping selections: the rank rule is undefined inside a wholly selected value, but every selected
+            # node that is not inside another one and is reached through object members only must be there, whole
+            for g, mx in zip(got, maximal):
+                for full, val in mx:
+                    cur = g
+                    ok = True
+                    for t in full:
+                        if isinstance(cur, dict) and t in cur:
+                            cur = cur[t]
+                        else:
+                            ok = False
+                            break
+                    if not ok or not jeq(cur, val):
+                        bad = ("projection-overlap", {"location": list(full), "value": val}, g)
+                        break
+                if bad:
                     break
     except Exception as e:  # noqa: BLE001
         if not jeq(work, snapshot):
